@@ -471,6 +471,11 @@ func (Parser).ParseFile
   modifies ghost(cbLen, cbErr, cbNode, cbStop, cbRet, cbLineNo, cbLine, cbHeader, cbElems, cbNElems, scRd, scPos, privLo, evOf, sendLen, sendChan, sendVal, lastOpen)
   ensures @sends-something [C18] sendLen >= old(sendLen) + 1
   ensures @ends-with-done-or-error [C18] sendChan[sendLen - 1] == p.Done || (sendLen == old(sendLen) + 1 && sendChan[sendLen - 1] == p.Errors)
+  // a file that cannot be opened yields exactly ONE send, on Errors, and nothing else; a file that can is parsed
+  // (the trace then ends with Done)
+  ghost after call 1 Open { let oerr := #ret1 }
+  ensures @unopenable-one-error [C10 C18] oerr != nil ==> sendLen == old(sendLen) + 1 && sendChan[old(sendLen)] == p.Errors
+  ensures @opened-is-parsed [C10 C18] oerr == nil ==> sendChan[sendLen - 1] == p.Done
 
 // ParseFileCallback: an unreadable file is an error; otherwise as ParseStreamCallback
 func ParseFileCallback
